@@ -206,7 +206,13 @@ pub fn run_guarded<S: Scenario>(s: &S, obs: &mut Obs) -> Result<(), Violation> {
         Ok(r) => r,
         Err(_) => {
             let msg = LAST_PANIC.with(|p| p.borrow().clone());
-            Err(Violation::new("no_panic", format!("panicked: {msg}")))
+            // a panic raised from the simulator's own source files is a harness bug, not a finding
+            let loc = msg.rsplit(" @ ").next().unwrap_or("");
+            if loc.starts_with("src/") || loc.contains("/sim/src/") {
+                Err(Violation::new("harness_panic", format!("the simulator itself panicked: {msg}")))
+            } else {
+                Err(Violation::new("no_panic", format!("panicked: {msg}")))
+            }
         }
     }
 }
